@@ -138,6 +138,11 @@ def twin(idnt, scale=1.0, retract=None, gcf=None):
     scaled; retract rows perturbed ('noise') or truncated ('cut')"""
     seg = np.asarray(idnt["segment"]).astype(bool)
     cols = {c: np.array(idnt[c], copy=True) for c in idnt.columns}
+    if retract == "none":
+        # the retract part was not recorded at all
+        keep = ~seg
+        cols = {c: v[keep] for c, v in cols.items()}
+        seg = seg[keep]
     if retract == "cut":
         keep = ~seg
         keep[np.nonzero(seg)[0][:max(3, int(seg.sum()) // 3)]] = True
@@ -299,7 +304,7 @@ def oracle(run, name, idnt, fit_state):
             fail(f"scale:{c}", f"features {d} change when force and fit are "
                  f"multiplied by {c}", "C17_scale_invariant_*")
     # approach only
-    for how in ("noise", "cut"):
+    for how in ("noise", "cut", "none"):
         try:
             w = feats(twin(idnt, retract=how))
         except BaseException as e:
@@ -577,6 +582,10 @@ def unfitted_sequence_cases(run):
     for j, n_app in enumerate(sizes):
         cols, k = c07.synthetic("hertz_para", 40 + j, n_app=n_app, n_ret=150,
                                 noise=2e-11)
+        if j % 2:
+            # approach part only (the retract part was not recorded)
+            ka_ = np.asarray(cols["segment"]) == 0
+            cols = {c_: np.asarray(v_)[ka_] for c_, v_ in cols.items()}
         idnt = curves.make_indentation(cols, k=k)
         with warnings.catch_warnings():
             warnings.simplefilter("ignore")
